@@ -663,6 +663,133 @@ def check_arith(inp):
             fails.append(f'mutating the result of {op} changed an operand (shared state)')
     return fails
 
+
+# ------------------------------------------------------------------------------------------- C04
+
+def random_operation_input(rng, L, d=2, Dmax=3):
+    import pytenet as ptn
+    qd = rng.integers(-1, 2, size=d)
+    def prof():
+        return [1] + [int(rng.integers(1, Dmax + 1)) for _ in range(L - 1)] + [1]
+    out = dict(L=L)
+    ql = [0]; qr = [int(rng.integers(-1, 2))]
+    for name, kind in (('psi', 'mps'), ('chi', 'mps'), ('H', 'mpo'), ('rho', 'mpo')):
+        D = prof()
+        if kind == 'mps':
+            qD = [np.array(ql)] + [rng.integers(-1, 2, size=D[i]) for i in range(1, L)] + [np.array(qr)]
+        else:
+            qD = [np.array([0])] + [rng.integers(-1, 2, size=D[i]) for i in range(1, L)] + [np.array([0])]
+        x = (ptn.MPS if kind == 'mps' else ptn.MPO)(qd, qD, fill='random', rng=rng)
+        out[name] = dict(qd=qd.tolist(), qD=[q.tolist() for q in qD], A=[a.tolist() for a in x.A])
+    return out
+
+
+@check('operation')
+def check_operation(inp):
+    import pytenet as ptn
+    from pytenet import operation as OP
+    from pytenet.mps import merge_mps_tensor_pair
+    from pytenet.mpo import merge_mpo_tensor_pair
+    from refs import dense as DN
+    kind, L = inp['kind'], inp['L']
+    fails = []
+    rng = np.random.default_rng(5)
+    try:
+        psi = _obj_from_json(inp['psi'], 'mps')
+        if kind == 'scalars':
+            chi = _obj_from_json(inp['chi'], 'mps'); H = _obj_from_json(inp['H'], 'mpo'); rho = _obj_from_json(inp['rho'], 'mpo')
+            objs = [psi, chi, H, rho]; snap = _snapshot(objs)
+            vp, vc, M, R = _dense(psi, 'mps'), _dense(chi, 'mps'), _dense(H, 'mpo'), _dense(rho, 'mpo')
+            sc = max(1.0, float(np.linalg.norm(vp)) * float(np.linalg.norm(vc)) * max(1.0, float(np.linalg.norm(M))))
+            if abs(OP.vdot(chi, psi) - np.vdot(vc, vp)) > TOL * sc:
+                fails.append('vdot differs from the dense inner product (first argument conjugated)')
+            if abs(OP.norm(psi) - np.linalg.norm(vp)) > TOL * sc:
+                fails.append('norm differs')
+            if abs(OP.operator_average(psi, H) - np.vdot(vp, M @ vp)) > TOL * sc * max(1.0, float(np.linalg.norm(vp))):
+                fails.append('operator_average differs')
+            if abs(OP.operator_inner_product(chi, H, psi) - np.vdot(vc, M @ vp)) > TOL * sc:
+                fails.append('operator_inner_product differs')
+            if abs(OP.operator_density_average(rho, H) - np.trace(M @ R)) > TOL * max(1.0, float(np.linalg.norm(M)) * float(np.linalg.norm(R))):
+                fails.append('operator_density_average differs from tr[op rho]')
+            if not _same(objs, snap):
+                fails.append('an argument was modified')
+            return fails
+        H = _obj_from_json(inp['H'], 'mpo')
+        objs = [psi, H]; snap = _snapshot(objs)
+        i = inp.get('site') or 0
+        M = _dense(H, 'mpo')
+        BR = OP.compute_right_operator_blocks(psi, H)
+        BL = [np.array([[[1]]], dtype=complex)]
+        for k in range(L - 1):
+            BL.append(OP.contraction_operator_step_left(psi.A[k], psi.A[k], H.A[k], BL[k]))
+        d = len(psi.qd)
+
+        def rnd(shape, key):
+            if key in inp and inp[key] is not None:
+                return np.array(inp[key], dtype=complex).reshape(shape)
+            return rng.standard_normal(shape) + 1j * rng.standard_normal(shape)
+        if kind in ('local1', 'hermitian'):
+            X = rnd(psi.A[i].shape, 'X'); Y = rnd(psi.A[i].shape, 'Y')
+            lhs = np.vdot(Y, OP.apply_local_hamiltonian(BL[i], BR[i], H.A[i], X))
+            AX = list(psi.A); AX[i] = X; AY = list(psi.A); AY[i] = Y
+            vx = np.array(DN.dense_mps(AX), dtype=complex); vy = np.array(DN.dense_mps(AY), dtype=complex)
+            rhs = np.vdot(vy, M @ vx)
+            if kind == 'hermitian' and np.allclose(M, M.conj().T):
+                other = np.vdot(X, OP.apply_local_hamiltonian(BL[i], BR[i], H.A[i], Y))
+                if abs(lhs - np.conj(other)) > TOL * max(1.0, abs(lhs)):
+                    fails.append('local Hamiltonian is not Hermitian although the MPO is')
+        elif kind == 'local2':
+            Hm = merge_mpo_tensor_pair(H.A[i], H.A[i + 1])
+            shape = merge_mps_tensor_pair(psi.A[i], psi.A[i + 1]).shape
+            X = rnd(shape, 'X'); Y = rnd(shape, 'Y')
+            lhs = np.vdot(Y, OP.apply_local_hamiltonian(BL[i], BR[i + 1], Hm, X))
+
+            def dense_two(T):
+                out = []
+                for phys in itertools.product(range(d), repeat=L):
+                    Mx = None; k = 0
+                    while k < L:
+                        if k == i:
+                            blk = T[phys[i] * d + phys[i + 1]]; k += 2
+                        else:
+                            blk = psi.A[k][phys[k]]; k += 1
+                        Mx = blk if Mx is None else Mx @ blk
+                    out.append(Mx[0, 0])
+                return np.array(out, dtype=complex)
+            rhs = np.vdot(dense_two(Y), M @ dense_two(X))
+        elif kind == 'local0':
+            Dm = psi.A[i].shape[2]
+            X = rnd((Dm, Dm), 'X'); Y = rnd((Dm, Dm), 'Y')
+            lhs = np.vdot(Y, OP.apply_local_bond_contraction(BL[i + 1], BR[i], X))
+
+            def dense_bond(C):
+                out = []
+                for phys in itertools.product(range(d), repeat=L):
+                    Mx = None
+                    for k in range(L):
+                        blk = psi.A[k][phys[k]]
+                        Mx = blk if Mx is None else Mx @ blk
+                        if k == i:
+                            Mx = Mx @ C
+                    out.append(Mx[0, 0])
+                return np.array(out, dtype=complex)
+            rhs = np.vdot(dense_bond(Y), M @ dense_bond(X))
+        elif kind == 'steps':
+            chi = _obj_from_json(inp['chi'], 'mps')
+            T = np.array([[1]], dtype=complex)
+            for k in range(L):
+                T = OP.contraction_step_left(psi.A[k], chi.A[k], T)
+            lhs = T[0, 0]; rhs = np.vdot(_dense(chi, 'mps'), _dense(psi, 'mps'))
+        else:
+            return [f'unknown kind {kind}']
+        if abs(lhs - rhs) > TOL * max(1.0, abs(lhs), abs(rhs)):
+            fails.append(f'{kind}: local matrix element {lhs} differs from the dense matrix element {rhs}')
+        if not _same(objs, snap):
+            fails.append('an argument was modified')
+    except Exception as e:
+        return [f'{kind} raised {type(e).__name__}: {e}']
+    return fails
+
 # -------------------------------------------------------------------------------------------
 
 def main():
